@@ -245,9 +245,15 @@ class Problem(Conversions):
         all_solutions = kwargs.pop("all_solutions", False)
         qubo = self.to_qubo(*args, **kwargs)
         sol = qubo.solve_bruteforce(all_solutions)
+
+        # a variable whose QUBO coefficients are all zero does not appear in
+        # the bruteforce solution; it is free, so fix it to zero.
+        def complete(x):
+            return {**{i: 0 for i in range(self.num_binary_variables)}, **x}
+
         if all_solutions:
-            return [self.convert_solution(x) for x in sol]
-        return self.convert_solution(sol)
+            return [self.convert_solution(complete(x)) for x in sol]
+        return self.convert_solution(complete(sol))
 
     def to_pubo(self, *args, **kwargs):
         """to_pubo.
